@@ -247,7 +247,11 @@ class Session:
         pairs = [(int(v[1:]), l) for v, l in sb.vars.items()]
         before = dict(tb.vars)
         try:
-            _copy.copy_vars(sb, tb)
+            if isinstance(src, str) and isinstance(dst, str):
+                import dd.autoref as _a
+                _a.copy_vars(sb, tb)        # the module-level function of dd.autoref
+            else:
+                _copy.copy_vars(sb, tb)
             ok = True
         except Exception as e:  # noqa: B902
             ok = False
